@@ -262,7 +262,7 @@ func c01Skip(p *Prog, r *Report, e *engine) {
 		if !ok || len(ret.Results) != 1 {
 			return false
 		}
-		b, ok := constBool(ret.Results[0])
+		b, ok := constBool(retVal(ret, 0))
 		return !(ok && b)
 	}
 	fields := []string{"dirsToSkip", "ignoreSubDirs", "useGitignore", "skipDirRegex", "skipDirGlob"}
@@ -348,7 +348,7 @@ func c01Skip(p *Prog, r *Report, e *engine) {
 	hf := newFA(p, r, e.handleFile)
 	var skipRets []*ssa.Return
 	for _, ret := range returnsOf(hf.fn) {
-		if len(ret.Results) == 1 && loadsGlobal(ret.Results[0], "io/fs", "SkipDir") {
+		if len(ret.Results) == 1 && loadsGlobal(retVal(ret, 0), "io/fs", "SkipDir") {
 			skipRets = append(skipRets, ret)
 		}
 	}
@@ -366,7 +366,7 @@ func c01Skip(p *Prog, r *Report, e *engine) {
 	for _, ed := range holds {
 		w := findPath(edgeStart(ed), func(in ssa.Instruction) bool {
 			ret, ok := in.(*ssa.Return)
-			return ok && !(len(ret.Results) == 1 && loadsGlobal(ret.Results[0], "io/fs", "SkipDir")) && !retNonNilErr(ret)
+			return ok && !(len(ret.Results) == 1 && loadsGlobal(retVal(ret, 0), "io/fs", "SkipDir")) && !retNonNilErr(ret)
 		}, nil, nil)
 		// an edge that re-joins the common path (the gitignore pre-check) is allowed if a later
 		// shouldSkipDir call decides; the last call must decide.
@@ -392,7 +392,7 @@ func retNonNilErr(ret *ssa.Return) bool {
 	if len(ret.Results) != 1 {
 		return false
 	}
-	v := ret.Results[0]
+	v := retVal(ret, 0)
 	if isNilConst(v) {
 		return false
 	}
@@ -734,7 +734,7 @@ func c01Walker(p *Prog, r *Report, e *engine) {
 			}
 		}
 		if len(ret.Results) == 1 {
-			chk(ret.Results[0])
+			chk(retVal(ret, 0))
 		}
 		r.Check(bad == "", "D7-walk", fmt.Sprintf("%s:returns#%d", w.key, i), p.Pos(ret.Pos()), "returns nil or what the callback / recursion returned", "the walker returns an error value it originates itself ("+bad+"): e.g. fs.SkipDir from here makes the parent stop listing its remaining entries")
 	}
